@@ -222,7 +222,7 @@ var guardedFields = map[string]map[string]string{
 var immutableFields = map[string]map[string]string{
 	plannerPkg + ".CachedPlanner": {
 		"TTL":      "set by NewCachedPlanner only",
-		"executor": "set by NewCachedPlanner / WithPlannerExecutor before the planner is handed to the gateway",
+		"executor": "set by NewCachedPlanner / WithPlannerExecutor before the planner is handed to the gateway (a usage convention of the exported builder: calling it while requests run would race with Plan)",
 		"RWMutex":  "the guard itself",
 	},
 	modPath + "/executor.CachedPointDataExtractor": {"RWMutex": "the guard itself"},
